@@ -294,6 +294,13 @@ def run(tier):
               'token-preserving: rebuilt nodes are made of the original '
               'text / the rebuilt children only (shared with C13.R2-R4)',
               sub13)
+    # what is compared and which executable runs (shared with C09)
+    sub9 = Check('C09', 'proof', tier, [], [])
+    chk.guard(c09.rule_r7, sub9, prog)
+    chk.guard(c09.rule_r8, sub9, prog)
+    chk.adopt('C01.R8', 'the compared streams are the command\'s bytes '
+              'decoded once, and each command runs its own private copy '
+              '(shared with C09.R7, C09.R8)', sub9)
     extra = None
     if tier == 'thorough':
         from .. import selftest
